@@ -168,6 +168,14 @@ def check_case(case):
                     op.is_applicable(state)
                 except Exception:  # noqa: the query's own failures are C02's business
                     pass
+                if with_objs:
+                    # ... and applied (also where it is not applicable): what the operator did to a state - to objects
+                    # other than its arguments too - is no part of what it reports about itself
+                    for flags in ({"allow_inapplicable_actions": True}, {"skip_validation": True}):
+                        try:
+                            op.apply(state, **flags)
+                        except Exception:  # noqa: C03's business
+                            pass
             pre = lib_leaves(op.grounded_preconditions)
             groups = []
             for ge in op.grounded_effects:
